@@ -389,7 +389,7 @@ fn build_utxo(u: &Value) -> Option<Utxo> {
     let pad_to = jusize(u, "pad_to");
     if pad_to > 0 {
         // choose the ballast so that the finished locking script is exactly pad_to bytes long
-        let base_len: usize = items.iter().map(|i| i.len()).sum::<usize>() + if verify { 1 } else { 0 };
+        let base_len: usize = items.iter().map(|i| i.len()).sum::<usize>() + if verify { 1 } else { 0 } + if verify && jbool(u, "sep_after_check") { 1 } else { 0 };
         // ballast costs payload + 2 (PUSHDATA1 prefix) + 1 (OP_DROP) for payloads of 76..=255 bytes
         let want = pad_to as i64 - base_len as i64 - 3;
         pad = if (76..=255).contains(&want) {
@@ -450,6 +450,11 @@ fn build_utxo(u: &Value) -> Option<Utxo> {
         lock.extend_from_slice(it);
     }
     if verify {
+        // <check>VERIFY [OP_CODESEPARATOR] OP_1 : a separator that executes after the check is still part of the check's
+        // subscript (FORKID preimages carry it, legacy preimages have every separator removed)
+        if jbool(u, "sep_after_check") {
+            lock.push(0xab);
+        }
         lock.push(0x51);
     }
     let subscript = lock[last_sep_end..].to_vec();
@@ -552,7 +557,7 @@ impl Scenario for SpendNet {
             real: &["bsv::Transaction (add_input/add_output/set_input/set_output/set_version/set_nlocktime, sign, to/from extended CBOR and JSON)", "bsv::Interpreter::{from_transaction, run, state}", "bsv::Script::{from_bytes, from_asm_string}", "bsv::P2PKHAddress::{from_pubkey, get_unlocking_script}", "bsv::SighashSignature, bsv::TxIn extended fields"],
             stub: &["covered-view model: a ~40-line table of which fields each flag commits to (not a byte-level preimage)", "ByzSigner: RFC 6979 textbook signer over the byte-reversed double-SHA256 of the library's own preimage", "locking scripts are assembled byte-wise by the harness (families fixed by the statement)"],
             assumptions: &["value mutations are not generated for legacy-flag signatures: the original algorithm does not commit to the value although the statement lists it", "ship events are applied only when the restored object re-serialises identically and keeps every input's locking script and declared value (fidelity of the formats is C18's subject)", "inputs/outputs are appended, replaced, prepended and inserted; an inserted input shifts the ones behind it together with their signatures and scripts"],
-            required_probes: &["validate_expect_accept", "validate_expect_reject", "signed_before_build_complete", "mutated_covered_field", "mutated_uncovered_field", "family_p2pk", "family_p2pkh", "family_multisig", "family_twostage", "flag_legacy", "flag_forkid", "separator_present", "shipped", "byz_signed", "sig_tampered", "validated_on_shipped_copy", "validated_under_stdout_fault", "ref_signed", "lib_signature_checked_against_reference_preimage", "multisig_signers_are_another_subset", "multisig_first_key_does_not_sign", "finalise_with_outsider_signature", "p2pkh_lock_from_library_api"],
+            required_probes: &["validate_expect_accept", "validate_expect_reject", "signed_before_build_complete", "mutated_covered_field", "mutated_uncovered_field", "family_p2pk", "family_p2pkh", "family_multisig", "family_twostage", "flag_legacy", "flag_forkid", "separator_present", "shipped", "byz_signed", "sig_tampered", "validated_on_shipped_copy", "validated_under_stdout_fault", "ref_signed", "lib_signature_checked_against_reference_preimage", "multisig_signers_are_another_subset", "multisig_first_key_does_not_sign", "finalise_with_outsider_signature", "p2pkh_lock_from_library_api", "signed_with_parked_subscript"],
             quick_runs: 15_000,
             thorough_runs: 1_500_000,
             rlimit_as: 4 << 30,
@@ -579,7 +584,7 @@ impl Scenario for SpendNet {
             txid[0] = u as u8;
             utxos.push(json!({"family": family, "m": rng.range(1, n), "keys": keys, "verify": rng.chance(1, 3), "uncompressed": rng.chance(1, 5), "seps": seps,
                 "sep_in_branch": rng.chance(1, 12), "branch_at": rng.below(8), "pad": if rng.chance(1, 4) { *rng.pick(&[1u64, 75, 76, 200, 255, 256, 300]) } else { 0 }, "pad_to": if rng.chance(1, 8) { *rng.pick(&[252u64, 253, 254, 252, 253, 65535, 65536, 65537]) } else { 0 },
-                "branch_form": rng.below(3), "lock_api": rng.chance(1, 2), "multisig_uncompressed": rng.chance(1, 8), "coinbase_like": rng.chance(1, 30), "value": u64s(match rng.below(4) { 0 => 0, 1 => u64::MAX, _ => rng.below(1 << 44) }), "txid": hx(&txid), "vout": rng.below(3)}));
+                "branch_form": rng.below(3), "lock_api": rng.chance(1, 2), "sep_after_check": rng.chance(1, 4), "multisig_uncompressed": rng.chance(1, 8), "coinbase_like": rng.chance(1, 30), "value": u64s(match rng.below(4) { 0 => 0, 1 => u64::MAX, _ => rng.below(1 << 44) }), "txid": hx(&txid), "vout": rng.below(3)}));
         }
         let mut events = vec![json!({"op": "setup", "utxos": utxos, "version": *rng.pick(&[1u32, 2, 0, u32::MAX]), "locktime": *rng.pick(&[0u32, 1, 499_999_999, u32::MAX])})];
         let n_events = rng.range(6, 40);
@@ -617,9 +622,10 @@ impl Scenario for SpendNet {
                 let mixed = rng.chance(1, 4);
                 let flag = *rng.pick(&swarm_flags);
                 let signer = if rng.chance(1, 4) { "ref_sign" } else { "sign" };
+                let park = if rng.chance(1, 3) { *rng.pick(&["subscript", "subscript", "lock", "other"]) } else { "" };
                 for slot in 0..3 {
                     let f = if mixed { *rng.pick(&swarm_flags) } else { flag };
-                    events.push(json!({"op": signer, "input": i, "slot": slot, "flag": f}));
+                    events.push(json!({"op": signer, "input": i, "slot": slot, "flag": f, "park": park}));
                 }
                 if rng.chance(1, 12) {
                     events.push(json!({"op": "byz_sign", "input": i, "slot": rng.below(3), "flag": flag}));
@@ -894,7 +900,37 @@ impl SpendNet {
                     let value = m.ins[i].declared;
                     let vw = view(&m, i, flag_b, &sub_bytes, value);
                     if op == "sign" {
-                        let res = lib!("Transaction::sign", tx.sign(&keys[key], flag, i, &sub, value));
+                        // the usual signing flow of other wallets: the script being satisfied is parked in the input while signing.
+                        // What an input's unlocking script holds at signing time is not covered by any flag.
+                        let park = jstr(ev, "park");
+                        let mut unpark: Option<TxIn> = None;
+                        if !park.is_empty() && ins[i].fin.is_none() {
+                            unpark = tx.get_input(i);
+                            let parked: Option<Script> = match park {
+                                "subscript" => Some(sub.clone()),
+                                "lock" => Script::from_bytes(&ut.lock).ok(),
+                                _ => Script::from_bytes(&[0x51, 0xab, 0x51]).ok(),
+                            };
+                            if let (Some(ps), Some(mut txin)) = (parked, tx.get_input(i)) {
+                                txin.set_unlocking_script(&ps);
+                                lib!("set_input", tx.set_input(i, &txin));
+                                ctx.probe(&format!("signed_with_parked_{}", park));
+                            }
+                        }
+                        let res = guard(|| tx.sign(&keys[key], flag, i, &sub, value));
+                        // the parked script leaves again whatever the signing call answered
+                        if let Some(orig) = unpark {
+                            lib!("set_input", tx.set_input(i, &orig));
+                        }
+                        let res = match res {
+                            Ok(r) => r,
+                            Err(p) => {
+                                if ctx.violate("panic", format!("panic@{}#Transaction::sign", site_file(&p.site)), format!("Transaction::sign panicked at {}: {}", p.site, p.msg)) {
+                                    return;
+                                }
+                                continue;
+                            }
+                        };
                         match (res, vw) {
                             (Ok(sig), Some(vw)) => {
                                 let bytes = sig.to_bytes().unwrap_or_default();
